@@ -392,6 +392,8 @@ def summarize(cases, results, stats, nob, ngood, details, props_file, rule, extr
         "lockstep_queries": ls_all, "lockstep_ok": ls_ok, "lockstep_pairs_checked": pairs,
         "lockstep_inconclusive": stats.get('inconclusive', 0),
         "token_streams_judged": streams,
+        "runs_with_bytes_conservation_evaluated": sum(r.get('conserve_runs', 0) for r in results),
+        "runs_in_which_its_hypothesis_holds": sum(r.get('conserve_hypothesis_holds', 0) for r in results),
         "refusals_documented": sum(1 for r in results if r.get('refusal_documented')),
         "excluded_dangerous_trailing_context": sum(1 for r in results if r.get('dangerous')),
         "dfa_size_histogram": sizes, "option_histogram": optsh,
